@@ -34,7 +34,7 @@ def check_record(rec) -> list[tuple[str, str]]:
 
 
 def run(ctx):
-    depth = 6 if ctx.quick else 8
+    depth = 6 if ctx.quick else 7
     alphabet = H.EV_QUICK if ctx.quick else H.EV_THOROUGH
     stats = {"nontrivial": set(), "outcomes": set()}
     total = {"states": 0, "transitions": 0}
